@@ -1,0 +1,79 @@
+/*
+ * Verification hook (compiled only with -DDISPATCH_VERIF=1).
+ *
+ * Re-defines the os_atomic_* primitives so that every atomic store / exchange /
+ * compare-exchange / fetch-op of the library calls two optional callbacks:
+ *   _dispatch_verif_yield_cb(addr, func, line)        before the operation
+ *   _dispatch_verif_atomic_cb(addr, size, op, old, new, func, line)  after it
+ * and drops a static record {file, line, op, memory order, expression} into
+ * the ELF section "dva_sites" at every expansion (loads and fences included).
+ * With the guard off this header is never included.
+ */
+#ifndef __DISPATCH_VERIF_ATOMIC__
+#define __DISPATCH_VERIF_ATOMIC__
+#include <stdint.h>
+enum { DVA_LOAD, DVA_STORE, DVA_XCHG, DVA_CAS_OK, DVA_CAS_FAIL, DVA_ADD, DVA_SUB, DVA_AND, DVA_OR, DVA_XOR };
+typedef void (*_dispatch_verif_atomic_cb_t)(const volatile void *addr, unsigned size,
+		int op, uint64_t oldv, uint64_t newv, const char *func, int line);
+extern _dispatch_verif_atomic_cb_t _dispatch_verif_atomic_cb;
+extern void (*_dispatch_verif_yield_cb)(const volatile void *addr, const char *func, int line);
+struct _dispatch_verif_site_s { const char *file; int line; int op; const char *order; const char *expr; };
+#define _DVA_SITE(opk, m, p) do { static const struct _dispatch_verif_site_s \
+		__attribute__((section("dva_sites"), used)) _dva_s = { __FILE__, __LINE__, (opk), #m, #p }; (void)_dva_s; } while (0)
+#define _DVA_U64(x) ((uint64_t)(uintptr_t)(x))
+#define _DVA_PRE(p) do { if (__builtin_expect(_dispatch_verif_yield_cb != 0, 0)) \
+		_dispatch_verif_yield_cb((p), __func__, __LINE__); } while (0)
+#define _DVA_POST(p, op, o, n) do { if (__builtin_expect(_dispatch_verif_atomic_cb != 0, 0)) \
+		_dispatch_verif_atomic_cb((p), sizeof(*(p)), (op), _DVA_U64(o), _DVA_U64(n), __func__, __LINE__); } while (0)
+
+#undef os_atomic_store
+#define os_atomic_store(p, v, m) ({ _DVA_SITE(DVA_STORE, m, p); __typeof__(p) _dp = (p); \
+		_os_atomic_basetypeof(p) _dn = (v); _DVA_PRE(_dp); \
+		atomic_store_explicit(_os_atomic_c11_atomic(_dp), _dn, memory_order_##m); \
+		_DVA_POST(_dp, DVA_STORE, 0, _dn); })
+#undef os_atomic_xchg
+#define os_atomic_xchg(p, v, m) ({ _DVA_SITE(DVA_XCHG, m, p); __typeof__(p) _dp = (p); \
+		_os_atomic_basetypeof(p) _dn = (v), _do; _DVA_PRE(_dp); \
+		_do = atomic_exchange_explicit(_os_atomic_c11_atomic(_dp), _dn, memory_order_##m); \
+		_DVA_POST(_dp, DVA_XCHG, _do, _dn); _do; })
+#undef os_atomic_cmpxchg
+#define os_atomic_cmpxchg(p, e, v, m) ({ _DVA_SITE(DVA_CAS_OK, m, p); __typeof__(p) _dp = (p); \
+		_os_atomic_basetypeof(p) _r = (e), _dn = (v); _DVA_PRE(_dp); _Bool _b = \
+		atomic_compare_exchange_strong_explicit(_os_atomic_c11_atomic(_dp), \
+		&_r, _dn, memory_order_##m, memory_order_relaxed); \
+		_DVA_POST(_dp, _b ? DVA_CAS_OK : DVA_CAS_FAIL, _r, _dn); _b; })
+#undef os_atomic_cmpxchgv
+#define os_atomic_cmpxchgv(p, e, v, g, m) ({ _DVA_SITE(DVA_CAS_OK, m, p); __typeof__(p) _dp = (p); \
+		_os_atomic_basetypeof(p) _r = (e), _dn = (v); _DVA_PRE(_dp); _Bool _b = \
+		atomic_compare_exchange_strong_explicit(_os_atomic_c11_atomic(_dp), \
+		&_r, _dn, memory_order_##m, memory_order_relaxed); *(g) = _r; \
+		_DVA_POST(_dp, _b ? DVA_CAS_OK : DVA_CAS_FAIL, _r, _dn); _b; })
+#undef os_atomic_cmpxchgvw
+#define os_atomic_cmpxchgvw(p, e, v, g, m) ({ _DVA_SITE(DVA_CAS_OK, m, p); __typeof__(p) _dp = (p); \
+		_os_atomic_basetypeof(p) _r = (e), _dn = (v); _DVA_PRE(_dp); _Bool _b = \
+		atomic_compare_exchange_weak_explicit(_os_atomic_c11_atomic(_dp), \
+		&_r, _dn, memory_order_##m, memory_order_relaxed); *(g) = _r; \
+		_DVA_POST(_dp, _b ? DVA_CAS_OK : DVA_CAS_FAIL, _r, _dn); _b; })
+#undef _os_atomic_c11_op
+#define _os_atomic_c11_op(p, v, m, o, op) ({ _DVA_SITE(DVA_##o##_K, m, p); __typeof__(p) _dp = (p); \
+		_os_atomic_basetypeof(p) _v = (v), _r; _DVA_PRE(_dp); _r = \
+		atomic_fetch_##o##_explicit(_os_atomic_c11_atomic(_dp), _v, \
+		memory_order_##m); _DVA_POST(_dp, DVA_##o##_K, _r, (__typeof__(_r))(_r op _v)); \
+		(__typeof__(_r))(_r op _v); })
+#undef _os_atomic_c11_op_orig
+#define _os_atomic_c11_op_orig(p, v, m, o, op) ({ _DVA_SITE(DVA_##o##_K, m, p); __typeof__(p) _dp = (p); \
+		_os_atomic_basetypeof(p) _v = (v), _r; _DVA_PRE(_dp); _r = \
+		atomic_fetch_##o##_explicit(_os_atomic_c11_atomic(_dp), _v, \
+		memory_order_##m); _DVA_POST(_dp, DVA_##o##_K, _r, (__typeof__(_r))(_r op _v)); \
+		_r; })
+#undef os_atomic_load
+#define os_atomic_load(p, m) ({ _DVA_SITE(DVA_LOAD, m, p); \
+		atomic_load_explicit(_os_atomic_c11_atomic(p), memory_order_##m); })
+#undef os_atomic_thread_fence
+#define os_atomic_thread_fence(m) do { _DVA_SITE(10, m, fence); atomic_thread_fence(memory_order_##m); } while (0)
+#define DVA_add_K DVA_ADD
+#define DVA_sub_K DVA_SUB
+#define DVA_and_K DVA_AND
+#define DVA_or_K DVA_OR
+#define DVA_xor_K DVA_XOR
+#endif
